@@ -15,6 +15,7 @@ import (
 
 	sio "github.com/karagenc/socket.io-go"
 	eio "github.com/karagenc/socket.io-go/engine.io"
+	eioparser "github.com/karagenc/socket.io-go/engine.io/parser"
 	vx "github.com/karagenc/socket.io-go/internal/vexplore"
 	"github.com/karagenc/socket.io-go/internal/vrig"
 	"github.com/karagenc/socket.io-go/internal/vsched"
@@ -463,6 +464,118 @@ func handlerAcksWire(name, ns string, bound int) *vx.Scenario {
 	return sc
 }
 
+// clientAcksWire: the same for the Go client: a raw Socket.IO endpoint (the repo's eio.Server driven by the
+// harness) sends events that ask for an acknowledgement; the client's handlers acknowledge with 0, 1, 2, nil
+// or binary arguments; the ACK frames the client posts are compared with the v5 form.
+func clientAcksWire(name, ns string, bound int) *vx.Scenario {
+	sc := &vx.Scenario{Name: name, Bound: bound, Horizon: time.Minute}
+	sc.Body = func(e *vsched.Exec) func() vx.Result {
+		var v vsched.Var
+		var ssock eio.ServerSocket
+		gotConnect := false
+		var texts []string
+		var bins [][]byte
+		var order []bool // per received message frame: binary?
+		es := eio.NewServer(func(s eio.ServerSocket) *eio.Callbacks {
+			v.Do(func() { ssock = s })
+			return &eio.Callbacks{OnPacket: func(ps ...*eioparser.Packet) {
+				for _, p := range ps {
+					if p.Type != eioparser.PacketTypeMessage {
+						continue
+					}
+					p := p
+					v.Do(func() {
+						if p.IsBinary {
+							bins = append(bins, append([]byte{}, p.Data...))
+							order = append(order, true)
+							return
+						}
+						t := string(p.Data)
+						if strings.HasPrefix(t, "0") {
+							gotConnect = true
+							return
+						}
+						texts = append(texts, t)
+						order = append(order, false)
+					})
+				}
+			}}
+		}, &eio.ServerConfig{})
+		link := &vrig.Inproc{H: es}
+		mcfg := &sio.ManagerConfig{NoReconnection: true}
+		mcfg.EIO.Transports = []string{"polling"}
+		mcfg.EIO.HTTPTransport = link
+		mgr := sio.NewManager("http://inproc/socket.io/", mcfg)
+		sock := mgr.Socket(ns, nil)
+		sock.OnEvent("none", func(ack func()) { ack() })
+		sock.OnEvent("one", func(ack func(string)) { ack("x") })
+		sock.OnEvent("two", func(a int, ack func(int, []any)) { ack(a+1, []any{}) })
+		sock.OnEvent("nil", func(ack func(any)) { ack(nil) })
+		sock.OnEvent("bin", func(ack func(sio.Binary, string)) { ack(sio.Binary{7, 8}, "t") })
+		connected := false
+		sock.OnConnect(func() { v.Do(func() { connected = true }) })
+		vsched.SetExploring(false)
+		sock.Connect()
+		pfx := ""
+		if ns != "/" {
+			pfx = ns + ","
+		}
+		vsched.Await(func() bool { return gotConnect && ssock != nil })
+		ssock.Send(vrig.Msg("0" + pfx + `{"sid":"sid0"}`))
+		vsched.Await(func() bool { return connected })
+		vsched.SetExploring(true)
+		type want struct{ id, payload string }
+		wants := []want{{"0", `[]`}, {"7", `["x"]`}, {"18446744073709551615", `[5,[]]`}, {"9", `[null]`}, {"10", `[{"_placeholder":true,"num":0},"t"]`}, {"18446744073709551614", `[]`}}
+		for i, ev := range []string{`["none"]`, `["one"]`, `["two",4]`, `["nil"]`, `["bin"]`, `["none"]`} {
+			ssock.Send(vrig.Msg("2" + pfx + wants[i].id + ev))
+		}
+		vrig.Settle(2 * time.Second)
+		return func() vx.Result {
+			var r vx.Result
+			got := map[string][]string{}
+			for _, t := range texts {
+				if !strings.HasPrefix(t, "3") && !strings.HasPrefix(t, "61-") {
+					continue
+				}
+				body := strings.TrimPrefix(strings.TrimPrefix(t, "3"), "61-")
+				if pfx != "" {
+					if !strings.HasPrefix(body, pfx) {
+						r.Violate("client ack on the wire: acknowledgement sent to another namespace than the event came from", "frame %q, namespace %s", t, ns)
+						continue
+					}
+					body = strings.TrimPrefix(body, pfx)
+				}
+				j := 0
+				for j < len(body) && body[j] >= '0' && body[j] <= '9' {
+					j++
+				}
+				got[body[:j]] = append(got[body[:j]], body[j:])
+			}
+			r.Outcome = fmt.Sprint(len(texts), len(bins))
+			if len(bins) != 1 || string(bins[0]) != string([]byte{7, 8}) {
+				r.Violate("client ack on the wire: binary acknowledgement without its one attachment", "binary frames %v, text frames %q", bins, texts)
+			}
+			for _, w := range wants {
+				g := got[w.id]
+				switch {
+				case len(g) == 0:
+					r.Violate("client ack on the wire: no ACK frame for an event whose handler acknowledged", "namespace %s, ack id %s: frames sent %q", ns, w.id, texts)
+				case len(g) > 1:
+					r.Violate("client ack on the wire: more than one ACK frame for one event", "namespace %s, ack id %s: %q", ns, w.id, g)
+				case g[0] != w.payload:
+					key := "client ack on the wire: payload is not the JSON array of the acknowledgement's arguments"
+					if !strings.HasPrefix(g[0], "[") {
+						key = "client ack on the wire: payload of an ACK frame is not a JSON array (protocol v5: other implementations refuse it)"
+					}
+					r.Violate(key, "namespace %s, ack id %s: payload %q, expected %q; frames sent %q", ns, w.id, g[0], w.payload, texts)
+				}
+			}
+			return r
+		}
+	}
+	return sc
+}
+
 // ---------------------------------------------------------------- 3. client side
 
 type payload struct{ attachments int }
@@ -702,6 +815,8 @@ func scenariosMode(tier string, early bool) []*vx.Scenario {
 		serverSide("server/unencodable-then-plain-reply", []srvEmit{{ev: "a", timeout: true, unencodable: true}, {ev: "b", reply: "rb"}}, false, 0, b1, early),
 		handlerAcksWire("server/handler-acks-on-the-wire/root", "/", b1),
 		handlerAcksWire("server/handler-acks-on-the-wire/namespace", "/admin", b1),
+		clientAcksWire("client/handler-acks-on-the-wire/root", "/", b1),
+		clientAcksWire("client/handler-acks-on-the-wire/namespace", "/admin", b1),
 		serverSide("server/3-outstanding", []srvEmit{{ev: "a", reply: "ra"}, {ev: "b", timeout: true, reply: "rb", replyDelay: T}, {ev: "c", timeout: true}}, false, 0, b1, early),
 		serverSide("server/2-outstanding-swapped", []srvEmit{{ev: "a", timeout: true, reply: "ra", replyDelay: 2 * time.Second}, {ev: "b", timeout: true, reply: "rb", replyDelay: time.Second}}, true, 0, b1, early),
 		serverSide("server/cut-mid-flight", []srvEmit{{ev: "a", timeout: true, reply: "ra", replyDelay: 3 * time.Second}, {ev: "b", reply: "rb", replyDelay: 3 * time.Second}}, false, 2*time.Second, b1, early),
